@@ -1,5 +1,5 @@
 SPECIFICATION Spec
-CONSTANTS MaxN = 3  Variant = "doc"  SubsetMode = "few"  AssertOnPlaneToo = FALSE
+CONSTANTS MaxN = 2  Variant = "doc"  SubsetMode = "few"  AssertOnPlaneToo = FALSE
 INVARIANT TypeOK
 INVARIANT UpperIsOriginal
 INVARIANT MirrorParity
